@@ -1655,6 +1655,10 @@ func (s *BgpServer) propagateUpdateToNeighbors(rib *table.TableManager, source *
 						bestList = []*table.Path{newPath}
 						if !alreadySent {
 							targetPeer.updateRoutes(newPath)
+							// an earlier version of this path may have been held
+							// back by send-max: it is advertised now, the mark
+							// would make its withdrawal look unnecessary later
+							targetPeer.unsetPathSendMaxFiltered(newPath)
 						}
 						if newPath.GetFamily() == bgp.RF_RTC_UC {
 							// we assumes that new "path" nlri was already sent before. This assumption avoids the
